@@ -34,6 +34,11 @@ class UnsupportedSchema(Exception):
     pass
 
 
+class IllFounded(DanglingRef):
+    """a $ref reached again on the same instance without consuming any of it: the schema
+    has no meaning (validators recurse forever)"""
+
+
 class OutsideDomain(Exception):
     """instance outside the common semantic domain of the property (assumed away)"""
 
@@ -62,6 +67,7 @@ class Evaluator:
         self.root = root
         self.dialect = dialect
         self.defs = defs  # external definitions (OpenAPI components)
+        self.active = []  # ($ref, id(instance)) being evaluated
 
     def valid(self, inst) -> bool:
         ok, _ = self.ev(self.root, inst)
@@ -99,7 +105,14 @@ class Evaluator:
         kx = jkind(x)
         if "$ref" in sch:
             target = self.resolve(sch["$ref"])
-            ok, evd = self.ev(target, x)
+            key = (sch["$ref"], id(x))
+            if key in self.active:
+                raise IllFounded(sch["$ref"])
+            self.active.append(key)
+            try:
+                ok, evd = self.ev(target, x)
+            finally:
+                self.active.pop()
             if d == D7 or d == OAS30:
                 return ok, evd  # siblings of $ref are ignored in draft-07 / OpenAPI 3.0
             if not ok:
